@@ -53,7 +53,7 @@ def build(variant):
 # --------------------------------------------------------------------------
 # harness
 
-def run_kvdrive(script_text, wd, name, variant="rel", env=None, timeout=120, taskset=None, stdin_bytes=None):
+def run_kvdrive(script_text, wd, name, variant="rel", env=None, timeout=120, taskset=None, stdin_bytes=None, leaks=False):
     """returns (trace_path, returncode, stderr_tail). returncode 124 = timeout"""
     bdir = build(variant)
     sp = os.path.join(wd, name + ".kv")
@@ -63,7 +63,7 @@ def run_kvdrive(script_text, wd, name, variant="rel", env=None, timeout=120, tas
     e = dict(os.environ)
     e.setdefault("OMP_NUM_THREADS", "4")
     if variant == "san":
-        e["ASAN_OPTIONS"] = "detect_leaks=1:abort_on_error=0:exitcode=99:allocator_may_return_null=1"
+        e["ASAN_OPTIONS"] = "detect_leaks=%d:abort_on_error=0:exitcode=99:allocator_may_return_null=1" % (1 if leaks else 0)
         e["UBSAN_OPTIONS"] = "print_stacktrace=1:halt_on_error=1:exitcode=98"
     if env:
         e.update(env)
@@ -80,11 +80,11 @@ def run_kvdrive(script_text, wd, name, variant="rel", env=None, timeout=120, tas
         return tp, 124, "timeout after %ss" % timeout
 
 
-def run_cli(args, variant="rel", stdin_bytes=None, timeout=60, env=None, cwd=None):
+def run_cli(args, variant="rel", stdin_bytes=None, timeout=60, env=None, cwd=None, leaks=False):
     bdir = build(variant)
     e = dict(os.environ)
     if variant == "san":
-        e["ASAN_OPTIONS"] = "detect_leaks=1:abort_on_error=0:exitcode=99"
+        e["ASAN_OPTIONS"] = "detect_leaks=%d:abort_on_error=0:exitcode=99" % (1 if leaks else 0)
         e["UBSAN_OPTIONS"] = "print_stacktrace=1:halt_on_error=1:exitcode=98"
     if env:
         e.update(env)
